@@ -124,6 +124,32 @@ func recursionSite(trace string) string {
 	return best
 }
 
+// hangSite names where a call that does not return spins, from the goroutine
+// dump taken with SIGQUIT.  The leaf frame is wherever the signal happened to
+// arrive, so it is not used: skipField if the running goroutine is inside the
+// recursive skip, else the outermost TarsGo frame of that goroutine (the
+// decoder that was called).
+func hangSite(trace string) string {
+	outer := "unknown"
+	for _, ln := range funcLines(trace) {
+		if strings.HasPrefix(ln, "goroutine ") {
+			if outer != "unknown" {
+				break // the first goroutine that is inside TarsGo code has been read
+			}
+			continue
+		}
+		if !strings.Contains(ln, tarsMark) || background(ln) {
+			continue
+		}
+		s := siteClass(ln)
+		if s == "codec.Reader.skipField" {
+			return s
+		}
+		outer = s
+	}
+	return outer
+}
+
 // panicClass reduces a panic message to its kind.
 func panicClass(msg string) string {
 	switch {
